@@ -187,26 +187,26 @@ Section Prefix.
     reflexivity.
   Qed.
 
-  (** resolving: the same value, absolute ranges moved by k — as long as `start_offset + pos`
-      (file.rs:247, an unchecked addition) does not overflow *)
-  Definition offsets_small (t : table) : Prop := forall pos g, In (XRaw pos g) t -> k + pos < usize_max.
-
-  Theorem resolve_prefix : forall t, offsets_small t -> forall fuel id,
+  (** resolving: the same outcome for every table and every object number, absolute ranges moved by k.
+      An offset with k + pos >= 2^64 (file.rs: checked_add) is beyond the end of both files, because
+      |p ++ f| < 2^64: both report ContentReadPastBoundary. *)
+  Theorem resolve_prefix : forall t fuel id,
     resolve_ref value obj_at member fuel (p ++ f) k t id = rmap (shift k) (resolve_ref value obj_at member fuel f 0 t id).
   Proof.
-    intros t Hsmall. induction fuel as [|fuel IH]; intros id; [reflexivity|].
+    clear Hhdr Hnop Hwin. intros t. induction fuel as [|fuel IH]; intros id; [reflexivity|].
     cbn [resolve_ref]. unfold table_get.
     destruct (nthN t id) as [e|] eqn:En; cbn [bind rmap]; [|reflexivity].
     destruct e as [nx g|pos g|sid idx| |]; try reflexivity.
-    - assert (Hin : In (XRaw pos g) t) by (eapply nth_error_In; exact En).
-      specialize (Hsmall pos g Hin).
-      assert (H1 : usize_max <=? k + pos = false) by (apply N.leb_gt; exact Hsmall). rewrite H1.
-      assert (H2 : usize_max <=? 0 + pos = false) by (apply N.leb_gt; lia). rewrite H2.
-      rewrite len_pf.
-      destruct (N.ltb_spec (lenN f) (0 + pos)) as [Hb|Hb].
-      + assert (H3 : k + lenN f <? k + pos = true) by (apply N.ltb_lt; lia). rewrite H3. reflexivity.
-      + assert (H3 : k + lenN f <? k + pos = false) by (apply N.ltb_ge; lia). rewrite H3.
-        rewrite Ho. replace (0 + pos) with pos by lia. reflexivity.
+    - pose proof len_pf as Hl. rewrite Hl in Hlen. rewrite Hl.
+      destruct (N.leb_spec usize_max (k + pos)) as [Hov|Hov].
+      + (* the sum does not fit: pos lies beyond the end of f as well *)
+        destruct (N.leb_spec usize_max (0 + pos)) as [H0|H0]; [reflexivity|].
+        assert (H3 : lenN f <? 0 + pos = true) by (apply N.ltb_lt; lia). rewrite H3. reflexivity.
+      + assert (H2 : usize_max <=? 0 + pos = false) by (apply N.leb_gt; lia). rewrite H2.
+        destruct (N.ltb_spec (lenN f) (0 + pos)) as [Hb|Hb].
+        * assert (H3 : k + lenN f <? k + pos = true) by (apply N.ltb_lt; lia). rewrite H3. reflexivity.
+        * assert (H3 : k + lenN f <? k + pos = false) by (apply N.ltb_ge; lia). rewrite H3.
+          rewrite Ho. replace (0 + pos) with pos by lia. reflexivity.
     - rewrite IH. destruct (resolve_ref value obj_at member fuel f 0 t sid); cbn [rmap bind]; try reflexivity.
       apply Hm.
   Qed.
@@ -239,15 +239,55 @@ End Prefix.
 (* ------------------------------------------------------------------ *)
 (** * the statements that are false, with witnesses *)
 
-(** file.rs:247 — `self.start_offset + pos` overflows for an entry whose offset is close to 2^64
-    as soon as there is a prefix: the prefixed file panics (debug) where the plain file reports an
-    error value.  Oracles instantiated with constants. *)
+(** file.rs:247 before the repair — `self.start_offset + pos` was an unchecked addition: for an entry
+    whose offset is close to 2^64 the prefixed file panicked (debug; wrap-around in release) where the
+    plain file reports an error value.  Oracles instantiated with constants. *)
+Fixpoint resolve_ref_old (value : Type) (obj_at : bytes -> N -> res value) (member : bytes -> value -> N -> res value)
+    (fuel : nat) (file : bytes) (start : N) (t : table) (id : N) : res value :=
+  match fuel with
+  | O => OutOfFuel
+  | S f =>
+      do e <- table_get t id;
+      match e with
+      | XRaw pos _ =>
+          if usize_max <=? start + pos then Panic 204 else     (* attempt to add with overflow *)
+          if lenN file <? start + pos then Err E_BOUNDS else
+          obj_at file (start + pos)
+      | XStream sid idx =>
+          do sv <- resolve_ref_old value obj_at member f file start t sid;
+          member file sv idx
+      | XFree _ _ => Err E_FREE
+      | XPromised => Err E_OTHER
+      | XInvalid => Err E_NULLREF
+      end
+  end.
+
 Lemma resolve_prefix_overflow_refuted :
   exists (t : table) (p f : bytes) (id : N),
-    resolve_ref N (fun _ _ => Ok 0) (fun _ _ _ => Ok 0) 2 f 0 t id = Err E_BOUNDS /\
-    resolve_ref N (fun _ _ => Ok 0) (fun _ _ _ => Ok 0) 2 (p ++ f) (lenN p) t id = Panic 204.
+    resolve_ref_old N (fun _ _ => Ok 0) (fun _ _ _ => Ok 0) 2 f 0 t id = Err E_BOUNDS /\
+    resolve_ref_old N (fun _ _ => Ok 0) (fun _ _ _ => Ok 0) 2 (p ++ f) (lenN p) t id = Panic 204 /\
+    resolve_ref N (fun _ _ => Ok 0) (fun _ _ _ => Ok 0) 2 (p ++ f) (lenN p) t id = Err E_BOUNDS.
 Proof.
-  exists [XRaw 18446744073709551615 0], [0], xr_header, 0. split; vm_compute; reflexivity.
+  exists [XRaw 18446744073709551615 0], [0], xr_header, 0. repeat split; vm_compute; reflexivity.
+Qed.
+
+(** the repaired resolve_ref has no panic site of its own: it ends in whatever the oracles return *)
+Lemma resolve_ref_no_panic (value : Type) obj_at member :
+  (forall fl pos, no_panic (obj_at fl pos) \/ obj_at fl pos = OutOfFuel) ->
+  (forall fl v i, no_panic (member fl v i) \/ member fl v i = OutOfFuel) ->
+  forall fuel file start t id,
+  match resolve_ref value obj_at member fuel file start t id with Panic _ => False | _ => True end.
+Proof.
+  intros Ho Hm. induction fuel as [|fuel IH]; intros file start t id; [exact I|].
+  cbn [resolve_ref]. unfold table_get. destruct (nthN t id) as [e|]; cbn [bind]; [|exact I].
+  destruct e as [nx g|pos g|sid idx| |]; try exact I.
+  - destruct (usize_max <=? start + pos); [exact I|]. destruct (lenN file <? start + pos); [exact I|].
+    destruct (Ho file (start + pos)) as [H|H]; [|rewrite H; exact I].
+    destruct (obj_at file (start + pos)); try exact I; contradiction.
+  - specialize (IH file start t sid).
+    destruct (resolve_ref value obj_at member fuel file start t sid) as [sv| | |]; cbn [bind]; try exact I; try contradiction.
+    destruct (Hm file sv idx) as [H|H]; [|rewrite H; exact I].
+    destruct (member file sv idx); try exact I; contradiction.
 Qed.
 
 (** file.rs:198-201 before the repair: scan read start_offset .. xref_offset (end not shifted) with
